@@ -133,9 +133,13 @@ func (r *bidRelay) handle(w http.ResponseWriter, req *http.Request) {
 		w.WriteHeader(http.StatusBadRequest)
 		return
 	}
-	// relay 3 has no bid for every third slot
+	// relay 3 has no bid for every third slot, relay 2 is unavailable for every fourth
 	if r.idx == 3 && slot%3 == 0 {
 		w.WriteHeader(http.StatusNoContent)
+		return
+	}
+	if r.idx == 2 && slot%4 == 1 {
+		w.WriteHeader(http.StatusServiceUnavailable)
 		return
 	}
 	var parent phase0.Hash32
@@ -318,7 +322,7 @@ func (w *bidWorld) prepare(rep int) {
 }
 
 // run: op.A = slot offset, op.B = mask of the relays of the proposer's configuration.
-func (w *bidWorld) run(rep int, ri int, _ *Role, op *Op) {
+func (w *bidWorld) run(rep int, ri int, _ *Role, op *Op, call uint64) {
 	cfg := &beaconblockproposer.ProposerConfig{FeeRecipient: bellatrix.ExecutionAddress{0xfe}}
 	for i, r := range w.relays {
 		if op.B&(1<<uint(i)) == 0 {
